@@ -1,6 +1,7 @@
 package c06
 
 import (
+	"context"
 	"fmt"
 	"sort"
 	"testing"
@@ -9,7 +10,9 @@ import (
 
 	"github.com/anyproto/any-sync/commonspace/object/tree/objecttree"
 	"github.com/anyproto/any-sync/commonspace/object/tree/treechangeproto"
+	"github.com/anyproto/any-sync/util/crypto"
 
+	"verif/harness/internal/accounts"
 	"verif/harness/internal/treesim"
 	"verif/harness/internal/vstat"
 )
@@ -55,7 +58,7 @@ func genCase(rt *rapid.T) RCase {
 	nh := rapid.IntRange(8, vstat.Pick(48, 80)).Draw(rt, "nhist")
 	for i := 0; i < nh; i++ {
 		var op HOp
-		switch rapid.IntRange(0, 19).Draw(rt, "hk") {
+		switch rapid.IntRange(0, 21).Draw(rt, "hk") {
 		case 0, 1, 2, 3, 4:
 			op = HOp{K: "edit", A: rapid.IntRange(0, n-1).Draw(rt, "r"), B: rapid.IntRange(0, 5).Draw(rt, "snap")}
 		case 5, 6, 7, 8, 9:
@@ -68,6 +71,10 @@ func genCase(rt *rapid.T) RCase {
 			op = HOp{K: "reopen", A: rapid.IntRange(0, n-1).Draw(rt, "r")}
 		case 18:
 			op = HOp{K: "flush", A: rapid.IntRange(1, 6).Draw(rt, "k")}
+		case 20, 21:
+			// two concurrent edits (two heads), a delivery that attaches but is refused by the
+			// validator (rolled back), then an addition: forged extension of one head / local edit / remote edit
+			op = HOp{K: "rollback", A: rapid.IntRange(0, n-1).Draw(rt, "r"), B: rapid.IntRange(0, n-1).Draw(rt, "r2"), C: rapid.IntRange(0, 63).Draw(rt, "variant")}
 		default:
 			op = HOp{K: "sync", A: rapid.IntRange(0, n-1).Draw(rt, "r"), B: rapid.IntRange(0, n-1).Draw(rt, "p")}
 		}
@@ -76,7 +83,7 @@ func genCase(rt *rapid.T) RCase {
 	nf := rapid.IntRange(5, vstat.Pick(22, 40)).Draw(rt, "nfeed")
 	for i := 0; i < nf; i++ {
 		op := FOp{O: rapid.IntRange(0, 1).Draw(rt, "o"), A: rapid.IntRange(0, 1000).Draw(rt, "a"), B: rapid.IntRange(0, 40).Draw(rt, "b"), C: rapid.IntRange(0, 7).Draw(rt, "c")}
-		switch rapid.IntRange(0, 19).Draw(rt, "fk") {
+		switch rapid.IntRange(0, 21).Draw(rt, "fk") {
 		case 0, 1, 2, 3, 4:
 			op.K = "subset"
 		case 5, 6, 7, 8:
@@ -89,6 +96,8 @@ func genCase(rt *rapid.T) RCase {
 			op.K = "reopen"
 		case 17:
 			op.K = "copy"
+		case 20, 21:
+			op.K = "reject"
 		default:
 			op.K = "history"
 		}
@@ -116,6 +125,31 @@ type fresh struct {
 	cur   *viewState
 	last  *objecttree.RawChangesPayload
 	fed   int
+	// rolledBack: a refused batch was rolled back while the tree had >= 2 heads and nothing was added since
+	rolledBack bool
+}
+
+// forge builds a correctly signed change (valid CID and signature) on the given parents,
+// the way objectTree.AddContent does for the holder of key.
+func forge(root *treechangeproto.RawTreeChangeWithId, key crypto.PrivKey, aclHead, base string, parents []string, data []byte, ts int64) (*treechangeproto.RawTreeChangeWithId, error) {
+	parents = append([]string(nil), parents...)
+	sort.Strings(parents)
+	_, raw, err := objecttree.NewChangeBuilder(crypto.NewKeyStorage(), root).Build(objecttree.BuilderContent{
+		TreeHeadIds: parents, AclHeadId: aclHead, SnapshotBaseId: base, Unencrypted: true, PrivKey: key, Content: data, Timestamp: ts, DataType: "t",
+	})
+	return raw, err
+}
+
+func sameSeq(a, b []string) bool {
+	if len(a) != len(b) {
+		return false
+	}
+	for i := range a {
+		if a[i] != b[i] {
+			return false
+		}
+	}
+	return true
 }
 
 func runR(c RCase) (out vstat.Outcome, err error) {
@@ -153,6 +187,74 @@ func runR(c RCase) (out vstat.Outcome, err error) {
 			raws[id] = ch.RawChange
 		}
 		return nil
+	}
+
+	// rejectOn delivers a batch that attaches in memory but is refused by the validator: a
+	// correctly signed change by an account that is not a member, on one head or on all heads
+	// of the tree, its base being the tree's current root (so that the in-memory path is
+	// taken), optionally together with valid changes. The call must fail and leave the
+	// presented sequence, the storage (ids and order ids) and the heads as they were.
+	forged := 0
+	rejectOn := func(subj *subject, acl string, prev *viewState, variant, pick int, mixed []*treechangeproto.RawTreeChangeWithId, step string) (*viewState, error) {
+		t := subj.tree
+		t.Lock()
+		heads := append([]string(nil), t.Heads()...)
+		root := t.Root().Id
+		path, perr := t.SnapshotPath()
+		path = append([]string(nil), path...)
+		t.Unlock()
+		if perr != nil {
+			return nil, fmt.Errorf("%s: SnapshotPath: %v", step, perr)
+		}
+		parents := heads
+		if variant%2 == 1 {
+			parents = []string{heads[pick%len(heads)]}
+		}
+		forged++
+		x, err := forge(s.Root, accounts.Named("outsider", 1).SignKey, acl, root, parents, []byte(fmt.Sprintf("forged-%d", forged)), s.Clock()+300000+int64(forged))
+		if err != nil {
+			return nil, fmt.Errorf("forge: %v", err)
+		}
+		p := objecttree.RawChangesPayload{NewHeads: []string{x.Id}, SnapshotPath: path}
+		p.RawChanges = append(p.RawChanges, mixed...)
+		p.RawChanges = append(p.RawChanges, x)
+		t.Lock()
+		res, aerr := t.AddRawChanges(context.Background(), p)
+		t.Unlock()
+		what := fmt.Sprintf("%s after the refused batch of %s (a change by a non-member on %s)", subj.label, step, rel.show(parents))
+		if aerr == nil {
+			return nil, fmt.Errorf("%s: the batch was accepted (%s, %d added)", what, modeName(res.Mode), len(res.Added))
+		}
+		now, err := rel.observe(subj, what)
+		if err != nil {
+			return nil, err
+		}
+		if err := rel.orderIdsKept(what, prev.orders, now.held); err != nil {
+			return nil, err
+		}
+		if len(now.held) != len(prev.held) {
+			return nil, fmt.Errorf("%s: a refused batch changed the stored set: %d -> %d changes", what, len(prev.held), len(now.held))
+		}
+		if !sameSet(now.heads, prev.heads) {
+			return nil, fmt.Errorf("%s: a refused batch changed the heads %s -> %s", what, rel.show(prev.heads), rel.show(now.heads))
+		}
+		if len(mixed) == 0 && !sameSeq(now.shown, prev.shown) {
+			return nil, fmt.Errorf("%s: a refused batch changed the presented sequence\n  before: %s\n  after:  %s", what, rel.show(prev.shown), rel.show(now.shown))
+		}
+		if err := rel.sameRestricted(what, now.shown, "the same tree before", prev.shown); err != nil {
+			return nil, err
+		}
+		classes["refused-batch-rolled-back"] = true
+		if len(mixed) > 0 {
+			classes["refused-batch-with-valid-changes"] = true
+		}
+		return now, nil
+	}
+	snapBaseOf := func(h string) string {
+		if h == rootId || rel.isSnap[h] {
+			return h
+		}
+		return rel.base[h]
 	}
 
 	// ---- phase 1: the honest history --------------------------------------------------------
@@ -255,6 +357,111 @@ func runR(c RCase) (out vstat.Outcome, err error) {
 			}
 		case "sync":
 			err = s.SyncWithPeer(op.A%c.N, op.B%c.N)
+		case "rollback":
+			a, b := op.A%c.N, op.B%c.N
+			if a == b {
+				b = (a + 1) % c.N
+			}
+			ra, rb := s.Replicas[a], s.Replicas[b]
+			if ra.Tree == nil || rb.Tree == nil {
+				break
+			}
+			// both replicas stand on the same heads, edit concurrently, exchange the edits
+			if err = s.Drain(20000); err != nil {
+				break
+			}
+			// one branch gets two or three changes, the other one or two: whether the head with the
+			// greatest id is also the head iterated last is then up to the (random) ids
+			if len(s.Produced)+7 <= maxChanges {
+				na, nb := 2, 1
+				if op.C&4 != 0 {
+					na, nb = 1, 2
+				}
+				if op.C&16 != 0 {
+					na++
+				}
+				if op.C&32 != 0 {
+					nb++
+				}
+				for k := 0; k < na && err == nil; k++ {
+					err = edit(a, false)
+				}
+				for k := 0; k < nb && err == nil; k++ {
+					err = edit(b, false)
+				}
+				if err == nil {
+					err = s.Drain(20000)
+				}
+			}
+			if err == nil {
+				err = checkSim(step + " (setup)")
+			}
+			if err != nil {
+				break
+			}
+			prev := states[a]
+			multi := len(prev.heads) >= 2
+			now, e := rejectOn(subjects[a], ra.Acl.Head().Id, prev, op.C>>3, op.C>>4, nil, step)
+			if e != nil {
+				err = e
+				break
+			}
+			states[a] = now
+			added := false
+			switch op.C % 4 {
+			case 0, 1: // a device of account b that holds only one branch extends it; replica a receives the change
+				if len(s.Produced) >= maxChanges {
+					break
+				}
+				hs := append([]string(nil), now.heads...)
+				sort.Strings(hs)
+				h := hs[len(hs)-1]
+				if op.C%4 == 1 {
+					h = hs[0]
+				}
+				v, e := forge(s.Root, rb.Keys.SignKey, ra.Acl.Head().Id, snapBaseOf(h), []string{h}, []byte(fmt.Sprintf("ext-%d", i)), s.Clock()+200000+int64(i))
+				if e != nil {
+					err = e
+					break
+				}
+				rel.parents[v.Id] = []string{h}
+				rel.base[v.Id] = snapBaseOf(h)
+				rel.isSnap[v.Id] = false
+				raws[v.Id] = v.RawChange
+				s.Produced[v.Id] = true
+				ra.Tree.Lock()
+				path, _ := ra.Tree.SnapshotPath()
+				path = append([]string(nil), path...)
+				ra.Tree.Unlock()
+				nh := []string{v.Id}
+				for _, x := range hs {
+					if x != h {
+						nh = append(nh, x)
+					}
+				}
+				_, after, e := rel.checkedAdd(subjects[a], objecttree.RawChangesPayload{NewHeads: nh, RawChanges: []*treechangeproto.RawTreeChangeWithId{v}, SnapshotPath: path}, now, classes, step+" (extension of one head after the refused batch)")
+				if e != nil {
+					err = e
+					break
+				}
+				states[a] = after
+				added = len(after.held) > len(now.held)
+				classes["single-head-extension-after-rollback"] = true
+			case 2: // a local change right after the rollback
+				before := len(s.Produced)
+				err = edit(a, false)
+				added = len(s.Produced) > before
+				classes["local-edit-after-rollback"] = true
+			default: // a remote change arrives right after the rollback
+				before := len(s.Produced)
+				if err = edit(b, false); err == nil {
+					err = s.Drain(20000)
+				}
+				added = len(s.Produced) > before
+			}
+			if err == nil && multi && added {
+				classes["addition-after-rolled-back-batch-multi-head"] = true
+			}
 		}
 		if err != nil {
 			return out, fmt.Errorf("%s: %v", step, err)
@@ -349,6 +556,12 @@ func runR(c RCase) (out vstat.Outcome, err error) {
 		}
 		if len(now.held)-before < freshIds {
 			classes["unattached-then-attached"] = true // the final re-delivery attaches them
+		}
+		if len(now.held) > before {
+			if f.rolledBack {
+				classes["addition-after-rolled-back-batch-multi-head"] = true
+			}
+			f.rolledBack = false
 		}
 		f.cur = now
 		f.last = &p
@@ -529,6 +742,24 @@ func runR(c RCase) (out vstat.Outcome, err error) {
 			err = copyDB(f, step, op.C%2 == 1)
 		case "history":
 			err = history(f, op.A, op.B, step)
+		case "reject":
+			var mixed []*treechangeproto.RawTreeChangeWithId
+			if op.B%3 == 0 { // together with up to two valid changes the replica does not hold yet
+				for _, id := range set {
+					if _, ok := f.cur.orders[id]; !ok && len(mixed) < 2 {
+						mixed = append(mixed, raw(id))
+					}
+				}
+			}
+			now, e := rejectOn(f.subj, f.rep.Acl.Head().Id, f.cur, op.C, op.A, mixed, step)
+			if e != nil {
+				err = e
+				break
+			}
+			if len(now.heads) >= 2 {
+				f.rolledBack = true
+			}
+			f.cur = now
 		}
 		if err != nil {
 			return out, err
